@@ -217,7 +217,8 @@ class Typestate(object):
         for (node, p, fld, kind, t, n) in res.stores:
             if p not in tracked:
                 bump(fld, 'rel' if kind == 'release' else 'arm')
-                if kind == 'release' and not (t & frozenset([A, E])) and self._full_loop(fname, node, p):
+                if kind == 'release' and not (t & frozenset([A, E])) and \
+                        (self._full_loop(fname, node, p) or self._chain_loop(fname, node, p, res)):
                     relall.setdefault(fld, True)
                 else:
                     relall[fld] = False
@@ -229,6 +230,51 @@ class Typestate(object):
                 anyfx[fld] = 'relall'
         self.summ[fname] = (paths, anyfx)
         return self.summ[fname]
+
+    def _chain_loop(self, fname, node, p, res):
+        """the store at `node` to cursor->H sits in `while (cursor != 0) { ...; cursor = cursor->Next; }`
+        whose cursor starts at a list head field: every chained instance is visited"""
+        m = self.m
+        g = m.cfg(fname)
+        for lid in node.loops:
+            lp = g.loops[lid]
+            if lp.kind not in ('while', 'for'):
+                continue
+            cond = lp.x.kids[0] if lp.kind == 'while' else lp.x.kids[2]
+            c0 = strip(cond) if cond is not None else None
+            if c0 is None:
+                continue
+            cur = None
+            if c0.k == 'bin' and c0.op == '!=' and const_eval(c0.kids[1]) == 0 and strip(c0.kids[0]).k == 'ref':
+                cur = strip(c0.kids[0])
+            elif c0.k == 'ref':
+                cur = c0
+            if cur is None or not p.startswith(cur.name + '->'):
+                continue
+            # every path through the body advances the cursor along a link field
+            adv = set()
+            for nid in lp.nodes:
+                nd = g.nodes[nid]
+                if nd.x is None:
+                    continue
+                for (pp, rhs, n2) in flow.assigned_paths(nd.x):
+                    if pp is not None and len(pp) == 1 and pp[0][1] == cur.ref and rhs is not None:
+                        r = strip(rhs)
+                        if r.k == 'mem' and r.arrow and strip(r.kids[0]).k == 'ref' and strip(r.kids[0]).ref == cur.ref:
+                            adv.add(nid)
+                        else:
+                            return False
+            if not adv:
+                continue
+            # no way round the loop body that skips the advance or the release
+            body_entry = [t for (t, lab) in g.nodes[lp.cond_nodes[-1]].succ if t in lp.nodes] if lp.cond_nodes else []
+            if not body_entry:
+                continue
+            skip = flow.reach_from(g, body_entry[0], avoid=set([node.id]), include_start=True)
+            if lp.head in skip:
+                continue
+            return True
+        return False
 
     def _full_loop(self, fname, node, p):
         """the store at `node` to instance p = base[i].H sits in `for (i = 0; i < N; i++)` with N the
@@ -329,7 +375,7 @@ class Typestate(object):
                 dead = False
                 if k[0] == 'P' and vid in pathinfo[k[1]][0]:
                     dead = True
-                elif k[0] in ('B', 'PRE') and k[1] == vid and k[1] != keep_bind:
+                elif k[0] in ('B', 'PRE', 'C') and k[1] == vid and k[1] != keep_bind:
                     dead = True
                 elif k[0] == 'B' and vid in pathinfo.get(s[k], (frozenset(),))[0]:
                     dead = True
@@ -400,7 +446,17 @@ class Typestate(object):
                 order.append(n)
             po(x)
             bind_target = None
+            create_target = None
             top = x
+            if top.k == 'var' and top.kids and _is_create(top.kids[0]):
+                create_target = top.ref
+            elif top.k == 'bin' and top.op == '=' and _is_create(top.kids[1]):
+                l0 = strip(top.kids[0])
+                if l0.k == 'ref' and l0.refk == 'VarDecl':
+                    create_target = l0.ref
+            if create_target is not None:
+                snap = dict(s)
+                res.create_snap[node.id] = snap
             if top.k == 'var' and top.kids:
                 if _is_delete(top.kids[0]):
                     bind_target = top.ref
@@ -434,11 +490,17 @@ class Typestate(object):
                     s = apply_call(s, node, n)
                 elif n.k == 'var' and n.kids:
                     s = invalidate_var(s, n.ref, keep_bind=bind_target)
+                    if create_target == n.ref:
+                        s = dict(s)
+                        s[('C', n.ref)] = node.id
                 elif (n.k == 'bin' and n.op.endswith('=') and n.op not in ('==', '!=', '<=', '>=')) or \
                         (n.k == 'un' and n.op in ('++', '--', 'post++', 'post--')):
                     lhs = strip(n.kids[0])
                     if lhs.k == 'ref' and lhs.refk in ('VarDecl', 'ParmVarDecl'):
                         s = invalidate_var(s, lhs.ref, keep_bind=bind_target)
+                        if create_target == lhs.ref:
+                            s = dict(s)
+                            s[('C', lhs.ref)] = node.id
                         continue
                     fld = _last_field(lhs)
                     if fld is not None and handles.is_handle(fld):
@@ -448,9 +510,17 @@ class Typestate(object):
                         t = get(s, p)
                         rhs = n.kids[1] if (n.k == 'bin' and n.op == '=') else None
                         cv = const_eval(rhs, env) if rhs is not None else None
+                        r0 = strip(rhs) if rhs is not None else None
                         if cv is not None and cv < 0:
                             kind = 'release'
                             nt = frozenset([R])
+                        elif r0 is not None and r0.k == 'ref' and ('C', r0.ref) in s:
+                            # result of an earlier COTmrCreate kept in a local: the handle must have been
+                            # released when that action was created (the pool slot is freed first)
+                            kind = 'create'
+                            snap = res.create_snap.get(s[('C', r0.ref)], {})
+                            t = snap.get(('P', p), snap.get(('F', fld), dflt(fld)))
+                            nt = frozenset([R, A])
                         elif rhs is not None and _is_create(rhs):
                             kind = 'create'
                             nt = frozenset([R, A])
@@ -581,12 +651,13 @@ class Typestate(object):
                     out[k] = ta | tb
                 elif k[0] == 'F':
                     out[k] = a.get(k, dflt(k[1])) | b.get(k, dflt(k[1]))
-                elif k[0] == 'B':
+                elif k[0] in ('B', 'C'):
                     if a.get(k) == b.get(k):
                         out[k] = a[k]
             return out
 
         res.h4_used = set()
+        res.create_snap = {}
         res.pathinfo = pathinfo
         res.canon = cn
         res.get = get
@@ -787,8 +858,56 @@ def run(ctx):
                        're-stored or failure-tested on every path to the exit')
 
     _h4(ctx, m, ts, results, handles, props_of)
+    _reset_releases_all(ctx, m, ts, handles, props_of)
     ctx.table('C20', 'RF3.release_all', dict((k, sorted('%s.%s' % f for f in fl)) for k, fl in release_all(ts).items()))
     return ts
+
+
+def _releases(ts, c, fld):
+    """callee c leaves every instance of handle field fld released and does so by deleting, not by overwriting"""
+    sm = ts.summary(c)
+    if sm is None:
+        return False
+    paths, anyfx = sm
+    ok = anyfx.get(fld) == 'relall' or any(f == fld and t == frozenset([R]) and '[' not in p for (p, f, t) in paths)
+    if not ok:
+        return False
+    res = ts.analyse(c)
+    for (node, p, f2, kind, t, n) in res.stores:
+        if f2 == fld and (t & frozenset([A, E])):
+            return False
+    return True
+
+
+def _reset_releases_all(ctx, m, ts, handles, props_of):
+    """H3: on every path of CONmtReset(reset communication) each stack-owned timer handle is released
+    (deleted, then -1) by some callee before the services are re-initialised"""
+    from canalyze.peval import PEval
+    pe = PEval(m, 'CONmtReset')
+    pe.store_filter = lambda k, f: False
+    pe.record_sets = False
+    trs = pe.run({'type': m.enum('CO_RESET_COM'), 'nmt': 1})
+    ctx.inst('RF3.H3.reset-traces', len(trs))
+    ctx.require_min(['C20'], 'RF3-H3', len(trs), 1, 'reset-communication paths')
+    for fld in sorted(handles.fields):
+        props = ['C20']
+        bad = None
+        how = None
+        for t in trs:
+            rel = [c for c in t.call_names() if c in m.funcs and _releases(ts, c, fld)]
+            if not rel:
+                bad = t
+            else:
+                how = rel[0]
+        site = 'CONmtReset(CO_RESET_COM) releases %s.%s' % fld
+        if bad is None:
+            ctx.ob(props, 'RF3-H3', 'CONmtReset', site, 'released by %s on every path' % how)
+        else:
+            ctx.ob(props, 'RF3-H3', 'CONmtReset', site, None)
+            ctx.find(props, 'RF3-H3', 'CONmtReset', 'H3:%s.%s' % fld, m.loc('CONmtReset', m.funcs['CONmtReset'].line),
+                     'reset communication has a path on which no callee releases (deletes and clears) every %s.%s timer '
+                     'handle: the action stays armed in the pool (slot leaked / fires into the re-initialised service); '
+                     'calls on that path: %s' % (fld[0], fld[1], [c for c in bad.call_names() if c in m.funcs]))
 
 
 def release_all(ts):
